@@ -103,8 +103,11 @@ def run(case, out):
         if got is FAILED:
             continue
         base_ok[n] = _check_words(out, "get_words", got, want, n=n)
-    if finite:
-        want = ref.all_words_if_finite()
+    want = ref.all_words_if_finite() if finite else None
+    if finite and (len(want) > 300 or max(map(len, want), default=0) > 10):
+        # a finite but huge language (doubling chains give 2^16 words): the enumeration is legitimately long
+        out.probe("finite_language_too_large_for_the_liveness_clause")
+    elif finite:
         b = LineBudget(LINE_BUDGET)
         try:
             with b:
